@@ -265,3 +265,31 @@ Proof.
     intros r Hr. rewrite map_length. exact Hr.
   - rewrite Hstrip. discriminate.
 Qed.
+
+(* ---- a sheet exercising every clause: two trailing None headers, a None header inside, None
+   and '' cells, content to the right of the last real header (cut off), a row whose only
+   content is cut off (dropped), a row of None cells (dropped) *)
+Local Open Scope N_scope.
+
+Definition ex_sheet : table xcell xcell :=
+  mkT [Some [97]; None; Some [98]; None; None]
+      [ [Some [120]; None; Some []; Some [106; 117; 110; 107]; None];
+        [None; Some []; None; Some [111; 117; 116]; None];
+        [None; None; None; None; None];
+        [None; None; Some [121]; None; None] ].
+
+Definition ex_sanitized : table xcell str :=
+  mkT [Some [97]; None; Some [98]] [ [[120]; []; []]; [[]; []; [121]] ].
+
+Example sanitize_nonvacuous :
+  rect ex_sheet /\ strip_none (hdr ex_sheet) = [Some [97]; None; Some [98]] /\
+  sanitize ex_sheet = Ok ex_sanitized /\ sanitize (relift ex_sanitized) = Ok ex_sanitized.
+Proof.
+  split; [unfold rect, ex_sheet; cbn [hdr rws]; repeat constructor|].
+  split; [reflexivity|]. split; [reflexivity|]. apply (sanitize_idempotent ex_sheet). reflexivity.
+Qed.
+
+(* the two failure modes of _sanitize as coded (exceptions in Python) *)
+Example sanitize_errors :
+  sanitize (mkT [] []) = Err EType /\ sanitize (mkT [None; None] [[Some [120]; None]]) = Err EIndex.
+Proof. split; reflexivity. Qed.
